@@ -15,7 +15,7 @@
                  Filesystem failures (DiskTierError::Io / InvalidBlobPath) are
                  outside the model.
    usize/u64 overflow of byte_count is outside the model (N is unbounded). *)
-From Coq Require Import List NArith Lia.
+From Coq Require Import List NArith Lia Bool.
 From Echo Require Import Base.FinMap Base.Order Base.Bytes.
 Import ListNotations.
 Open Scope N_scope.
@@ -313,3 +313,151 @@ Arguments RErr {A} e.
    string that the run hashes, its real BLAKE3 value. *)
 Definition table_hash (tbl : list (bytes * N)) (b : bytes) : N :=
   match find bytes_cmp b tbl with Some h => h | None => 0 end.
+
+(* ------------------------------------------------------------------ export profiles (record level) *)
+(* Record-level model of the material validation of the self-contained and CAS-addressed
+   causal-history export profiles (wsc/store.rs).  Everything that is WSC envelope encoding,
+   projection-graph comparison and WAL segment recovery is outside this model. *)
+
+(* RetainedMaterialRecord: (material_digest, (semantic_coordinate_digest, (kind code 1..7, posture code; 0 = Present))) *)
+Definition material := (N * (N * (N * N)))%type.
+Definition mat_digest (m : material) : N := fst m.
+Definition mat_coord (m : material) : N := fst (snd m).
+Definition mat_kind (m : material) : N := fst (snd (snd m)).
+Definition mat_present (m : material) : bool := N.eqb (snd (snd (snd m))) 0.
+Definition mat_cmp : material -> material -> comparison :=
+  pair_cmp N.compare (pair_cmp N.compare (pair_cmp N.compare N.compare)).
+
+(* WscSelfContainedRetainedMaterial *)
+Definition payload := (material * bytes)%type.
+Definition payload_cmp : payload -> payload -> comparison := pair_cmp mat_cmp bytes_cmp.
+
+(* WscCasAddressedRetainedMaterialReference / segment reference at this level:
+   ((material_kind, semantic_coordinate_digest), (content_hash, byte_len)); the pair in front is the
+   canonicalisation key of canonical_cas_addressed_retained_references *)
+Definition cref := ((N * N) * (N * N))%type.
+Definition cref_key (r : cref) : N * N := fst r.
+Definition cref_kind (r : cref) : N := fst (fst r).
+Definition cref_coord (r : cref) : N := snd (fst r).
+Definition cref_hash (r : cref) : N := fst (snd r).
+Definition cref_len (r : cref) : N := snd (snd r).
+Definition key_cmp : N * N -> N * N -> comparison := pair_cmp N.compare N.compare.
+Definition cref_cmp : cref -> cref -> comparison := pair_cmp key_cmp (pair_cmp N.compare N.compare).
+
+(* canonical_*: BTreeMap keyed by k; an equal duplicate is absorbed, a different one is a typed
+   duplicate-mismatch obstruction *)
+Section Canon.
+  Context {K V : Type} (kcmp : K -> K -> comparison) (vcmp : V -> V -> comparison) (key : V -> K).
+  Definition canon_step (acc : option (list (K * V))) (v : V) : option (list (K * V)) :=
+    match acc with
+    | None => None
+    | Some m => match find kcmp (key v) m with
+                | Some e => match vcmp e v with Eq => Some (set kcmp (key v) v m) | _ => None end
+                | None => Some (set kcmp (key v) v m)
+                end
+    end.
+  Definition canon (vs : list V) : option (list (K * V)) := fold_left canon_step vs (Some []).
+End Canon.
+
+Inductive sc_res :=
+| SCOk
+| SCDuplicate
+| SCDigestMismatch (expected actual : N)
+| SCMissing (digest : N)
+| SCExtra (digest : N).
+
+Inductive cas_res :=
+| CASOk
+| CASDuplicate
+| CASRefMismatch (missing extra : N)
+| CASMissingBlob (hash coord : N)
+| CASHashMismatch (expected actual : N)
+| CASLenMismatch (expected actual : N).
+
+(* (kind, (digest, coord)) triples compared by validate_cas_addressed_retained_references *)
+Definition triple := (N * (N * N))%type.
+Definition triple_cmp : triple -> triple -> comparison := pair_cmp N.compare (pair_cmp N.compare N.compare).
+Definition mat_triple (m : material) : triple := (mat_kind m, (mat_digest m, mat_coord m)).
+Definition cref_triple (r : cref) : triple := (cref_kind r, (cref_hash r, cref_coord r)).
+Definition tset (l : list triple) : list (triple * unit) :=
+  fold_left (fun s t => ins triple_cmp t tt s) l [].
+Definition tdiff (a b : list (triple * unit)) : N :=
+  lenN (filter (fun t => negb (mem triple_cmp (fst t) b)) a).
+
+Section ExportWithHash.
+  Variable H : bytes -> N.
+
+  (* validate_self_contained_retained_hashes over the canonical (digest-ordered) payload list *)
+  Fixpoint sc_hashes (ps : list (N * payload)) : option (N * N) :=
+    match ps with
+    | [] => None
+    | (_, (m, b)) :: r => if N.eqb (H b) (mat_digest m) then sc_hashes r else Some (mat_digest m, H b)
+    end.
+
+  Fixpoint sc_missing (mats : list material) (ps : list (N * payload)) : option N :=
+    match mats with
+    | [] => None
+    | m :: r => if mat_present m && negb (mem N.compare (mat_digest m) ps) then Some (mat_digest m)
+                else sc_missing r ps
+    end.
+
+  Fixpoint sc_extra (mats : list material) (ps : list (N * payload)) : option N :=
+    match ps with
+    | [] => None
+    | (d, _) :: r => if existsb (fun m => N.eqb (mat_digest m) d) mats then sc_extra mats r else Some d
+    end.
+
+  (* canonical_self_contained_retained_materials + validate_self_contained_{export,import}_retained_payloads *)
+  Definition sc_check (mats : list material) (pays : list payload) : sc_res :=
+    match canon N.compare payload_cmp (fun p => mat_digest (fst p)) pays with
+    | None => SCDuplicate
+    | Some ps =>
+        match sc_hashes ps with
+        | Some (e, a) => SCDigestMismatch e a
+        | None => match sc_missing mats ps with
+                  | Some d => SCMissing d
+                  | None => match sc_extra mats ps with
+                            | Some d => SCExtra d
+                            | None => SCOk
+                            end
+                  end
+        end
+    end.
+
+  (* validated_cas_blob_bytes: the port returns ARBITRARY bytes for a hash *)
+  Definition cas_blob (cas : list (N * bytes)) (r : cref) : cas_res :=
+    match find N.compare (cref_hash r) cas with
+    | None => CASMissingBlob (cref_hash r) (cref_coord r)
+    | Some b => if negb (N.eqb (H b) (cref_hash r)) then CASHashMismatch (cref_hash r) (H b)
+                else if negb (N.eqb (lenN b) (cref_len r)) then CASLenMismatch (cref_len r) (lenN b)
+                else CASOk
+    end.
+
+  Fixpoint cas_blobs (cas : list (N * bytes)) (rs : list cref) : cas_res :=
+    match rs with
+    | [] => CASOk
+    | r :: rest => match cas_blob cas r with CASOk => cas_blobs cas rest | e => e end
+    end.
+
+  (* validate_wsc_cas_addressed_wal_export restricted to material: reference set = present records,
+     then every segment blob, then every retained blob in canonical (kind, coordinate) order *)
+  Definition cas_check (mats : list material) (segrefs retrefs : list cref) (cas : list (N * bytes)) : cas_res :=
+    match canon key_cmp cref_cmp cref_key retrefs with
+    | None => CASDuplicate
+    | Some rs =>
+        let expected := tset (map mat_triple (filter mat_present mats)) in
+        let actual := tset (map cref_triple (map snd rs)) in
+        if orb (negb (N.eqb (tdiff expected actual) 0)) (negb (N.eqb (tdiff actual expected) 0))
+        then CASRefMismatch (tdiff expected actual) (tdiff actual expected)
+        else match cas_blobs cas segrefs with
+             | CASOk => cas_blobs cas (map snd rs)
+             | e => e
+             end
+    end.
+End ExportWithHash.
+
+(* canonical_retained_material_records: one record per material digest, a different record for the same
+   digest is a typed duplicate-mismatch obstruction (so one content under two coordinates is refused) *)
+Definition retention_ok (mats : list material) : bool :=
+  match canon N.compare mat_cmp mat_digest mats with Some _ => true | None => false end.
+
